@@ -46,6 +46,10 @@ CHECKS = {
     "C15": ("Hypothesis-generated arrays (1-4 dims, every axis) against pure-Python statistics; generated datasets with irregular grids against a windowed-aggregate model of -T, via API and csv",
             "Each aggregator (14 named + quantile levels) along every axis equals the list statistic; under -T every obs/fcst/ensemble-member value entering a score equals the aggregate over the trailing window (x-h, x] of the same series.",
             "Lead times/times ascending within a file under -T; a missing value in a window makes every statistic but count (and change, which uses the end points) missing; float32 tolerance 2e-6.", "DESIGN.md section 5, C15"),
+    "C08": ("Hypothesis-generated probability/outcome vectors and generated probabilistic/ensemble datasets; differential against exact definitions on the model's valid cases; decomposition identity, complement relation and validity predicates for ensemble quantiles",
+            "The Brier family on vectors (exact Fraction arithmetic, BS = REL - RES + UNC with one value per bin), 20 probabilistic metrics through the csv code path on datasets with stored or ensemble-derived thresholds/quantiles under all bin types, "
+            "BS(event)=BS(complement), and range/monotonicity/symmetry of ensemble-derived quantiles.",
+            "Reliability/resolution terms are not judged for probabilities within float noise of an interior decimal bin edge; ensemble-quantile interpolation is judged by validity only; float32 tolerance for ensemble-derived probabilities.", "DESIGN.md section 5, C08"),
     "C07": ("exhaustive enumeration of value/threshold order relations + Hypothesis random floats against a plain-comparison oracle",
             "Complete enumeration of the order relations a value can have to 1-3 thresholds for all eight bin types (scalar, array, "
             "apply_threshold, 2x2 cells, event probabilities, partition laws) plus random float cases; decides the property on the "
